@@ -176,17 +176,21 @@ Proof.
   exists [Connect; Greeting 0; User 0 [97]; UserBegin 0; Drop 0; LogoutRuns 0]. vm_compute. reflexivity.
 Qed.
 
-(* ---- finding F24 (known_findings.json; harness key c10-quit-behind-unwritten-replies-connection-fails)
+(* ---- finding F24 (known_findings.json; harness key c10-quit-burst-reply-queued-behind-failed-write)
    The theorems above quantify over event lists in which every session end IS an event: `Quit i` stands for "QUIT
    was dispatched AND the dispatcher left `await response_queue.join()` and ran its finally block".  On the current
-   source that second half fails when the control connection is lost while a reply queued BEFORE QUIT's is still
-   unwritten: response_writer dies at the first reply it cannot write, nobody acknowledges the replies behind it,
-   join() never returns.  The history the implementation really performs is then the one WITHOUT the `Quit i` event
-   (and without any later event of session i, until ServerClose).  The full statement "after every peer is gone the
+   source that second half fails for a pipelined burst that contains QUIT (anywhere in it) when the control connection
+   is lost while at least one reply is queued BEHIND the first reply that cannot be written - a reply queued before
+   QUIT's ('NOOP NOOP QUIT', an earlier write failing) or after it ('QUIT NOOP', the write of the 221 itself failing):
+   response_writer dies at the first reply it cannot write, nobody acknowledges the replies behind it, join() never
+   returns.  The history the implementation really performs is then the one WITHOUT the `Quit i` event: the commands
+   before QUIT, possibly some of those pipelined after it (their handlers were started before QUIT's result was
+   looked at), and no later event of session i until ServerClose.  The full statement "after every peer is gone the
    whole limit is available again" is refuted by that history: the peer of session 0 is gone, yet session 0 is not
-   Dead, the server counter stays at 0 of 1 and the next client is told 421.  (Witness on the real code:
+   Dead, the server counter stays at 0 of 1 and the next client is told 421.  (Witnesses on the real code:
    evidence/replay/C10-witness-F24-*.json; the theorems above are the carved part: they hold for every history in
-   which each dispatched QUIT / refused greeting is followed by its end event, which the harness checks per history.) *)
+   which each dispatched QUIT / refused greeting is followed by its end event, which the harness checks per history.
+   Nothing queued behind the failing reply - QUIT alone, the last reply of a burst, the greeting - is fine.) *)
 Theorem C10_every_end_reaches_finally_refuted_F24 :
   let c := gen_cfg (Some 1) [alice] true in
   let st := reach c [Connect; Greeting 0; User 0 [97]; Other 0 (* NOOP; QUIT dispatched: no event follows *)] in
